@@ -158,6 +158,31 @@ theorem partial_state_skip (st : SkipState) (h : Inv st) (hs : st.state = true) 
   subst hs he
   cases p <;> cases c <;> first | decide | (revert h; decide)
 
+/-- **Hand-over is transparent**: a filter rebuilt around move-constructed steps reports the same
+    flags, answers the next command identically and takes the same branch in predict / correct as
+    the configured original — after every command history, for every prediction class. -/
+theorem skip_handover_transparent (st : SkipState) (k : PredKind) (c : Cmd) :
+    handOver st = st ∧ skipCmd (handOver st) c = skipCmd st c ∧
+    predPath k (handOver st) = predPath k st ∧ corrRuns (handOver st) = corrRuns st := by
+  cases st
+  exact ⟨rfl, rfl, rfl, rfl⟩
+
+/-- Hand-overs may be interleaved with commands anywhere in a history without changing the
+    resulting state. -/
+theorem run_with_handovers (cs₁ cs₂ : List Cmd) (st : SkipState) :
+    run (handOver (run st cs₁)) cs₂ = run st (cs₁ ++ cs₂) := by
+  rw [(skip_handover_transparent _ .kf ⟨.filter, .unknown, false⟩).1]
+  induction cs₁ generalizing st with
+  | nil => rfl
+  | cons c cs ih => simp only [run, List.cons_append]; exact ih _
+
+/-- What fix 88cf1f5 repairs: before it, handing over a Gaussian correction whose skip was on
+    gave a filter that corrects again. -/
+theorem handover_before_fix_lost_correction_skip :
+    let st := (filterSkip (SkipState.init false) .all true).st
+    corrRuns st = false ∧ corrRuns (handOverBefore88cf1f5 st) = true ∧ corrRuns (handOver st) = false := by
+  decide
+
 /-! ### Non-vacuity -/
 
 /-- a history ending with everything off after partial and full skips, with an exogenous model -/
